@@ -235,9 +235,20 @@ func (P *Program) dischargeGoals(g *Gen, goals []*Obligation, base, dir string, 
 			return
 		}
 	}
+	// 1b. batches: the function's script is loaded once per batch and every goal
+	// of the batch is one check-sat-assuming on a literal defined as the goal
+	// (no push/pop); an `unsat` answer discharges the goal exactly as the
+	// single-goal script would (same assertions, same negated goal). Goals the
+	// batch does not decide go on to the individual runs below.
+	if !confirm && os.Getenv("TSVC_NOBATCH") == "" {
+		P.batchGoals(goals, base, dir)
+	}
 	// 2. individually, in parallel
 	var wg sync.WaitGroup
 	for i, ob := range goals {
+		if ob.Status == "unsat" && !confirm {
+			continue
+		}
 		wg.Add(1)
 		go func(i int, ob *Obligation) {
 			defer wg.Done()
@@ -320,6 +331,79 @@ func (P *Program) dischargeGoals(g *Gen, goals []*Obligation, base, dir string, 
 			}
 			cachePut(h, cacheEntry{ob.Status, r.Solver, r.Secs})
 		}(i, ob)
+	}
+	wg.Wait()
+}
+
+func (P *Program) batchGoals(goals []*Obligation, base, dir string) {
+	var todo []*Obligation
+	hashes := map[*Obligation]string{}
+	for _, ob := range goals {
+		h := hashStr(base + "(assert (not " + ob.Form + "))\n(check-sat)\n")
+		hashes[ob] = h
+		if ce, ok := cacheGet(h); ok {
+			if ce.Status == "unsat" {
+				ob.Status, ob.Solver, ob.Secs = ce.Status, ce.Solver+" (cached)", ce.Secs
+			}
+			continue
+		}
+		todo = append(todo, ob)
+	}
+	if len(todo) < 4 {
+		return
+	}
+	const perCheckMs = 2500
+	nb := (len(todo) + 39) / 40
+	if nb > 12 {
+		nb = 12
+	}
+	var wg sync.WaitGroup
+	for b := 0; b < nb; b++ {
+		var chunk []*Obligation
+		for i := b; i < len(todo); i += nb {
+			chunk = append(chunk, todo[i])
+		}
+		wg.Add(1)
+		go func(b int, chunk []*Obligation) {
+			defer wg.Done()
+			var sb strings.Builder
+			sb.WriteString(strings.Replace(base, "(set-logic ALL)", fmt.Sprintf("(set-logic ALL)\n(set-option :timeout %d)", perCheckMs), 1))
+			for i, ob := range chunk {
+				sb.WriteString(fmt.Sprintf("(declare-const goal!%d Bool)\n(assert (= goal!%d %s))\n", i, i, ob.Form))
+			}
+			for i := range chunk {
+				sb.WriteString(fmt.Sprintf("(check-sat-assuming ((not goal!%d)))\n", i))
+			}
+			f := filepath.Join(dir, fmt.Sprintf("batch%02d.smt2", b))
+			_ = writeFile(f, sb.String())
+			t0 := time.Now()
+			r := runSolver(solvers[0], f, len(chunk)*perCheckMs/1000+30)
+			secs := time.Since(t0).Seconds()
+			if strings.Contains(r.Output, "(error") {
+				return
+			}
+			var ans []string
+			for _, l := range strings.Fields(r.Output) {
+				if l == "sat" || l == "unsat" || l == "unknown" {
+					ans = append(ans, l)
+				}
+			}
+			n := 0
+			for i, a := range ans {
+				if i < len(chunk) && a == "unsat" {
+					n++
+				}
+			}
+			for i, a := range ans {
+				if i >= len(chunk) || a != "unsat" {
+					continue
+				}
+				ob := chunk[i]
+				ob.Status, ob.Solver, ob.Secs = "unsat", solvers[0].name+" (batch)", secs/float64(max(n, 1))
+				cachePut(hashes[ob], cacheEntry{"unsat", ob.Solver, ob.Secs})
+			}
+			_ = os.Remove(f)
+		}(b, chunk)
 	}
 	wg.Wait()
 }
